@@ -68,6 +68,17 @@ void harness(void) {
     if (vp_failed > 0) VP_WITNESS("failure path");
     COMMON_OBLIGATIONS(e);
     __CPROVER_assert(!(vp_failed == 0) || (e == E_SUCCESS && out == 1), "neighbouring cells are recognised when nothing fails");
+#elif defined(DISKANY)
+    // arbitrary 64-bit origin (invalid cells included) with resolution field RES: the error paths of the safe fallback
+    H3Index a = in_a = (vp_u64("in_a") & ~(UINT64_C(15) << 52)) | ((uint64_t)RES << 52);
+    VP_EXCLUDE();
+    H3Index out[7] = {0};
+    H3Error e = H3_EXPORT(gridDisk)(a, 1, out);
+    if (vp_failed > 0) VP_WITNESS("failure path");
+    if (e != E_SUCCESS && e != E_MEMORY_ALLOC) VP_WITNESS("error path");
+    __CPROVER_assert(vp_live == 0, "every block allocated has been freed on return (success and every error path)");
+    __CPROVER_assert(!(vp_failed > 0) || e == E_MEMORY_ALLOC, "a failed allocation is reported as E_MEMORY_ALLOC");
+    __CPROVER_assert(!(e == E_MEMORY_ALLOC) || vp_failed > 0, "E_MEMORY_ALLOC only when an allocation failed");
 #elif defined(DISK)
     H3Index a = in_a = mkcell(RES, "in_a");
     VP_EXCLUDE();
